@@ -78,7 +78,8 @@ FAULT_KINDS = ["scribble-on-yielded-context", "scribble-on-filled-value", "branc
 EXPECTED_PROBES = ["split-run", "split-fill-compute", "split-fill-request", "zip-compute", "zip-request",
                    "three-or-more-branches", "multi-block", "stopping-branch-not-last",
                    "acc-empty-context-yielded", "acc-wrapper", "scribble-then-compute",
-                   "compute-twice-no-fill", "makefilename-in-two-branches"]
+                   "compute-twice-no-fill", "makefilename-in-two-branches", "nested-split-or-zip-branch",
+                   "several-results-per-compute"]
 
 _TIER = ["quick"]
 
@@ -233,6 +234,15 @@ class Replay(object):
             yield r
 
 
+def branch_of(r):
+    """branch tag of a result: ('B', b, value), or a tuple of such (a nested Zip)"""
+    if isinstance(r, tuple) and len(r) == 3 and r[0] == "B" and isinstance(r[1], int):
+        return r[1]
+    if isinstance(r, tuple) and r and all(isinstance(x, tuple) and len(x) == 3 and x[0] == "B" for x in r):
+        return r[0][1]
+    return None
+
+
 MUTATORS = ["uctx", "udata", "var", "upd", "mkf", "count"]
 
 
@@ -265,6 +275,10 @@ def gen_split(tape, sc):
             br.slice_pos = tape.draw(nm + 1, "slice-pos")
         br.fr_bufsize = 1 + tape.draw(3, "fr-bufsize")
         br.fr_reset = bool(tape.draw(2, "fr-reset"))
+        # the branch is itself a Split (or Zip) of two copies of the chain (with their own mutator codes)
+        br.nested = None
+        if br.kind in ("fc", "fr") and br.slice is None and tape.chance(1, 5, "nested-branch"):
+            br.nested = tape.choice(["Split", "Zip"], "nested-kind")
         sc.branches.append(br)
     sc.reqs = []
     if sc.driver in ("fill-request", "zip-request"):
@@ -278,13 +292,13 @@ def make_flow(n):
     return [([i], {"src": {"i": i}, "tags": []}) for i in range(n)]
 
 
-def build_branch(sc, b, store):
-    """list of elements of branch b (fresh objects)"""
+def build_branch(sc, b, store, sub=0):
+    """list of elements of branch b (fresh objects); sub: copy number inside a nested branch"""
     br = sc.branches[b]
     els = [Recorder(store)]
     muts = []
     for j, m in enumerate(br.muts):
-        code = 100 * (b + 1) + j
+        code = 100 * (b + 1) + j + 50 * sub
         if m == "uctx":
             muts.append(UCtx(b, code))
         elif m == "udata":
@@ -292,9 +306,9 @@ def build_branch(sc, b, store):
         elif m == "var":
             muts.append(lena.variables.Variable("v%d_%d" % (b, j), lambda d, code=code: d + [code]))
         elif m == "upd":
-            muts.append(lena.context.UpdateContext("br.b%d" % b, code))
+            muts.append(lena.context.UpdateContext("br.b%d_%d" % (b, sub), code))
         elif m == "mkf":
-            muts.append(lena.output.MakeFilename("f{{src.i}}_b%d_%d" % (b, j)))
+            muts.append(lena.output.MakeFilename("f{{src.i}}_b%d_%d_%d" % (b, j, sub)))
         else:
             muts.append(lena.core.FillInto(lena.flow.Count("c%d" % b)))
     if br.slice is not None:
@@ -320,8 +334,15 @@ def build_branch(sc, b, store):
     return els
 
 
-def as_seq(sc, b, els):
-    k = sc.branches[b].kind
+def as_seq(sc, b, els, store=None):
+    br = sc.branches[b]
+    k = br.kind
+    if getattr(br, "nested", None) and store is not None:
+        one = as_seq(sc, b, els)
+        two = as_seq(sc, b, build_branch(sc, b, store, sub=1))
+        if br.nested == "Split":
+            return lena.core.Split([one, two])
+        return lena.flow.Zip([one, two])
     if k == "seq":
         return lena.core.Sequence(*els)
     if k == "fc":
@@ -332,7 +353,7 @@ def as_seq(sc, b, els):
 def drive(sc, which, flow, stores, res=None):
     """Run the branches *which* (indices) under the scenario's driver.
     Returns the list of results, or for request drivers the list of chunks."""
-    seqs = [as_seq(sc, b, build_branch(sc, b, stores[b])) for b in which]
+    seqs = [as_seq(sc, b, build_branch(sc, b, stores[b]), stores[b]) for b in which]
     d = sc.driver
     if d == "run":
         s = lena.core.Split(seqs, bufsize=sc.bufsize)
@@ -369,7 +390,10 @@ def run_split(tape, res, sc):
     d = sc.driver
     res.say("branch isolation: driver %s, bufsize %s, %d values, %d branches" % (d, sc.bufsize, sc.n, sc.nb))
     for b, br in enumerate(sc.branches):
-        res.say("  branch %d: %s %s%s%s" % (b, br.kind, "+".join(br.muts),
+        if br.nested:
+            res.probe("nested-split-or-zip-branch")
+        res.say("  branch %d: %s%s %s%s%s" % (b, br.kind, (" nested in a %s of two copies" % br.nested) if br.nested else "",
+                                             "+".join(br.muts),
                                            (" -> %s" % br.acc) if br.acc else "",
                                            (" Slice(%d)@%d" % (br.slice, br.slice_pos)) if br.slice is not None else ""))
     if sc.reqs:
@@ -454,7 +478,7 @@ def run_split(tape, res, sc):
                 al = [r for ch in alone[b][0] for r in ch]
             else:
                 al = alone[b][0]
-            mine = [r for r in tog_flat if isinstance(r, tuple) and len(r) == 3 and r[0] == "B" and r[1] == b]
+            mine = [r for r in tog_flat if branch_of(r) == b]
             cm, ca = canon(mine), canon(al)
             log.ev("result", b, summarize(cm) == summarize(ca))
             if cm != ca:
@@ -463,7 +487,7 @@ def run_split(tape, res, sc):
                          "copy of the flow it yields %r" % (b, "+".join(sc.branches[b].muts), sc.nb,
                                                             summarize(cm), summarize(ca)))
                 return
-        n_tagged = sum(1 for r in tog_flat if isinstance(r, tuple) and len(r) == 3 and r[0] == "B")
+        n_tagged = sum(1 for r in tog_flat if branch_of(r) is not None)
         if n_tagged != len(tog_flat):
             res.viol("C04:%s:foreign-results" % where, "results without a branch tag: %r" % (summarize(tog_flat),))
         return
@@ -497,7 +521,7 @@ def run_split(tape, res, sc):
 # (b) accumulators under scribble faults
 
 ACCS = ["Sum", "DSum", "Mean", "MeanSum", "VarianceMeanCount", "Vectorize", "Count", "Histogram",
-        "SplitIntoBins"]
+        "SplitIntoBins", "VectorizeStore"]
 WRAPPERS = ["bare", "bare", "FillComputeSeq", "Split", "Zip", "FillRequest"]
 
 
@@ -514,6 +538,9 @@ def make_acc(name):
         return lena.math.VarianceMeanCount(corrected=False, pass_on_empty=True)
     if name == "Vectorize":
         return lena.math.Vectorize(lena.math.Sum(), dim=2)
+    if name == "VectorizeStore":
+        # the component accumulators yield one result per filled value: several results per compute
+        return lena.math.Vectorize(lena.flow.StoreFilled(yield_as_a_group=False), dim=2)
     if name == "Count":
         return lena.flow.Count("cnt")
     if name == "Histogram":
@@ -542,8 +569,8 @@ def gen_acc(tape, sc):
     sc.acc = tape.choice(ACCS, "acc")
     sc.wrapper = tape.choice(WRAPPERS, "wrapper")
     sc.acc2 = tape.choice(["Sum", "Count", "Histogram", "Mean"], "acc2")
-    if sc.acc == "Vectorize":
-        sc.acc2 = "Vectorize"
+    if sc.acc in ("Vectorize", "VectorizeStore"):
+        sc.acc2 = sc.acc
     sc.bufsize = tape.choice([1000, 1, None], "bufsize")
     sc.ops = []
     nfill = 0
@@ -573,7 +600,7 @@ def gen_acc(tape, sc):
 
 
 def make_value(sc, x, ck, serial):
-    data = (x, x + 1) if sc.acc == "Vectorize" else x
+    data = (x, x + 1) if sc.acc in ("Vectorize", "VectorizeStore") else x
     if ck == "bare":
         return data
     if ck == "empty":
@@ -642,6 +669,8 @@ def run_acc(tape, res, sc):
                 results.append([])
                 continue
             rs = out[1]
+            if len(rs) > 1:
+                res.probe("several-results-per-compute")
             res.say("%s() -> %r" % (method, summarize(canon(rs))))
             log.ev("result", summarize(canon(rs)))
             if scribbled:
